@@ -17,7 +17,7 @@ import sys
 
 HERE = os.path.dirname(os.path.dirname(os.path.abspath(__file__)))
 NEUTRAL = {"TWOSIDED", "CONFLICT", "NOOP"}
-SITE_KEYS = {"C06": ["variant"], "C12": ["decline", "root_by_oid"], "C14": ["mangle"], "C10": [], "C07": [], "C17": ["both_sides_pending"]}
+SITE_KEYS = {"C06": ["variant"], "C12": ["decline"], "C14": [], "C10": [], "C07": [], "C17": ["both_sides_pending"]}
 # clauses that are never attributed to a hazard stratum, whatever the measurement says (data loss, confinement, ...)
 NEVER = {"LastCopy", "NoLoss", "NoInventedContent", "InsideRoot", "OutsideUntouched", "DeclinedLeftAlone",
          "FoundByOid", "FoundByPath", "NoStaleOidSlot", "NoStalePathSlot", "OneOwnerPerOid", "PendingExact", "PersistExact",
